@@ -323,7 +323,10 @@ func r03Creates(c *core.Ctx, p *load.Program, sh *kvShape, ruleParent, ruleAbsen
 					return // generic forwarding inside the primitives (save -> setFile -> setFileTxn)
 				}
 				if fn.Object() == nil || !fn.Object().Exported() {
-					return
+					// a helper an exported method hands its name parameters to carries out that method's stores
+					if _, hb := bodyOf(sh.methods, fn); hb == nil || sh.setFns[fn] != 0 || hasKey(sh.setFns, fn) {
+						return
+					}
 				}
 				kind = "store-elsewhere"
 			default:
@@ -334,7 +337,28 @@ func r03Creates(c *core.Ctx, p *load.Program, sh *kvShape, ruleParent, ruleAbsen
 			}
 			key := fname(fn) + "|" + ord.next("create:"+kind)
 			found, isDir := sh.parentIsDirAt(cl, pval)
+			// in a helper body, what the exported method established before it called the helper counts as well
+			var upCall *ssa.Call
+			var upVal ssa.Value
+			if prm, isParam := pval.(*ssa.Parameter); isParam && (fn.Object() == nil || !fn.Object().Exported()) {
+				if _, hb := bodyOf(sh.methods, fn); hb != nil {
+					for rp, bp := range hb.params {
+						if bp == prm {
+							upCall, upVal = hb.call, rp
+						}
+					}
+				}
+			}
+			upParentOK := func() bool {
+				if upCall == nil {
+					return false
+				}
+				f2, d2 := sh.parentIsDirAt(upCall, upVal)
+				return f2 && d2 || isRootFact(upCall, upVal, true) || isRootOrParentChecked(sh, upCall, upVal)
+			}
 			switch {
+			case upParentOK():
+				c.OK(ruleParent, key, p.Pos(cl.Pos()), "the calling method looked path.Dir(p) up and found a directory before it handed p to this helper")
 			case found && isDir:
 				c.OK(ruleParent, key, p.Pos(cl.Pos()), "path.Dir(p) looked up successfully and IsDir() on this path")
 			case isRootFact(cl, pval, true):
@@ -350,7 +374,7 @@ func r03Creates(c *core.Ctx, p *load.Program, sh *kvShape, ruleParent, ruleAbsen
 			switch {
 			case sh.ancestorWalk(p, fn, pval):
 				c.OK(ruleAbsent, key, p.Pos(cl.Pos()), "p was classified missing by the ancestor walk")
-			case absentOrNotDirChecked(sh, cl, pval):
+			case absentOrNotDirChecked(sh, cl, pval) || (upCall != nil && absentOrNotDirChecked(sh, upCall, upVal)):
 				c.OK(ruleAbsent, key, p.Pos(cl.Pos()), "on every path p was looked up and found absent or not a directory before the record is stored")
 			default:
 				c.Bad(ruleAbsent, key, p.Pos(cl.Pos()), fmt.Sprintf("%s stores a record at %s on a path on which %s was not looked up and found absent or a non-directory: an existing directory is overwritten and its children become entries below a non-directory, unreachable from any listing", fname(fn), vname(pval), vname(pval)))
@@ -774,59 +798,78 @@ func r03KindKept(c *core.Ctx, p *load.Program, rule string) {
 // them — no child move (recursive Rename call) is reachable after the deletion of the source, and every child move
 // follows a store of the destination record. A fault between the steps then leaves two well-formed directories.
 func r03RenameOrder(c *core.Ctx, p *load.Program, sh *kvShape) {
-	fn := sh.methods["Rename"]
-	if fn == nil || len(fn.Params) < 3 {
+	root := sh.methods["Rename"]
+	if root == nil || len(root.Params) < 3 {
 		c.Hard("anchor: keyvalue.FS.Rename")
 		return
 	}
-	oldP, newP := ssa.Value(fn.Params[1]), ssa.Value(fn.Params[2])
 	recursive := 0
 	var afterDelete, beforeDest ssa.Instruction
-	complete := ssax.EnumPaths(fn, fn.Blocks[0], 0, nil, ssax.PathHooks{
-		Instr: func(s *ssax.PathState, ins ssa.Instruction) {
+	complete := true
+	var strayDelete ssa.Instruction
+	deletes := 0
+	// the directory move may live in Rename itself or in a helper Rename hands both names to
+	for _, body := range opBodies(root) {
+		fn := body.fn
+		op, np := body.param(root.Params[1]), body.param(root.Params[2])
+		if op == nil || np == nil || (body.call != nil && hasKey(sh.setFns, fn)) {
+			continue
+		}
+		oldP, newP := ssa.Value(op), ssa.Value(np)
+		hasRec := false
+		ssax.Instrs(fn, func(ins ssa.Instruction) {
+			if cl, ok := ins.(*ssa.Call); ok && ssax.StaticCallee(cl) == root {
+				hasRec = true
+			}
+		})
+		if hasRec {
+			ok := ssax.EnumPaths(fn, fn.Blocks[0], 0, nil, ssax.PathHooks{
+				Instr: func(s *ssax.PathState, ins ssa.Instruction) {
+					cl, ok := ins.(*ssa.Call)
+					if !ok {
+						return
+					}
+					callee := ssax.StaticCallee(cl)
+					if callee == nil {
+						return
+					}
+					if pi, isSet := sh.setFns[callee]; isSet {
+						rec := cl.Call.Args[pi+1]
+						switch {
+						case ssax.IsNilConst(rec) && cl.Call.Args[pi] == oldP:
+							s.Counts["deleted"] = 1
+						case !ssax.IsNilConst(rec) && cl.Call.Args[pi] == newP:
+							s.Counts["dest"] = 1
+						}
+					}
+					if callee == root {
+						recursive++
+						if s.Counts["deleted"] == 1 && afterDelete == nil {
+							afterDelete = ins
+						}
+						if s.Counts["dest"] == 0 && beforeDest == nil {
+							beforeDest = ins
+						}
+					}
+				},
+			})
+			complete = complete && ok
+		}
+		// R03.13: the only record Rename deletes is the one at the source name
+		ssax.Instrs(fn, func(ins ssa.Instruction) {
 			cl, ok := ins.(*ssa.Call)
 			if !ok {
 				return
 			}
-			callee := ssax.StaticCallee(cl)
-			if callee == nil {
-				return
-			}
-			if pi, isSet := sh.setFns[callee]; isSet {
-				rec := cl.Call.Args[pi+1]
-				switch {
-				case ssax.IsNilConst(rec) && cl.Call.Args[pi] == oldP:
-					s.Counts["deleted"] = 1
-				case !ssax.IsNilConst(rec) && cl.Call.Args[pi] == newP:
-					s.Counts["dest"] = 1
+			if pi, isSet := sh.setFns[ssax.StaticCallee(cl)]; isSet && ssax.StaticCallee(cl) != nil && ssax.IsNilConst(cl.Call.Args[pi+1]) {
+				deletes++
+				if cl.Call.Args[pi] != oldP && strayDelete == nil {
+					strayDelete = ins
 				}
 			}
-			if callee == fn {
-				recursive++
-				if s.Counts["deleted"] == 1 && afterDelete == nil {
-					afterDelete = ins
-				}
-				if s.Counts["dest"] == 0 && beforeDest == nil {
-					beforeDest = ins
-				}
-			}
-		},
-	})
-	// R03.13: the only record Rename deletes is the one at the source name
-	var strayDelete ssa.Instruction
-	deletes := 0
-	ssax.Instrs(fn, func(ins ssa.Instruction) {
-		cl, ok := ins.(*ssa.Call)
-		if !ok {
-			return
-		}
-		if pi, isSet := sh.setFns[ssax.StaticCallee(cl)]; isSet && ssax.StaticCallee(cl) != nil && ssax.IsNilConst(cl.Call.Args[pi+1]) {
-			deletes++
-			if cl.Call.Args[pi] != oldP && strayDelete == nil {
-				strayDelete = ins
-			}
-		}
-	})
+		})
+	}
+	fn := root
 	if strayDelete != nil {
 		c.Bad("R03.13", fname(fn)+"|deletes-only-the-source", p.Pos(strayDelete.Pos()), fmt.Sprintf("%s deletes the record of a name other than the source it was asked to move: removing the destination directory's record (an 'undo' after a child failed to move) leaves the children already moved there as entries below a directory that does not exist, reachable by Stat but listed nowhere", fname(fn)))
 	} else {
